@@ -226,7 +226,11 @@ func (vc *VC) call(ins ssa.Instruction, c *ssa.CallCommon, v *ssa.Call) {
 			}
 			continue
 		}
-		if err := vc.havocLvalue(env, m.Expr); err != nil {
+		// l-values denote locations of the pre-call state (an earlier clause may already have havocked what a later
+		// one reads)
+		menv := *env
+		menv.heap = preHeap
+		if err := vc.havocLvalue(&menv, m.Expr); err != nil {
 			vc.fail("call %s modifies %s: %v", shortKey(key), m.Text, err)
 		}
 	}
@@ -451,7 +455,7 @@ func (vc *VC) havocLvalue(env *SpecEnv, e SpecExpr) error {
 				vc.comp(ck, "")
 				cur = Term{S: vc.subRef(ck, cur.S), Sort: "Int", T: f.Type(), Addr: true}
 			} else {
-				cur = Term{S: fmt.Sprintf("(select %s %s)", vc.getComp(ck, vc.fieldSort(f)), cur.S), Sort: "Int", T: f.Type()}
+				cur = Term{S: fmt.Sprintf("(select %s %s)", vc.getCompIn(env.heap, ck, vc.fieldSort(f)), cur.S), Sort: "Int", T: f.Type()}
 			}
 		}
 		st := cur.T
